@@ -67,6 +67,7 @@ type l1World struct {
 	succ  map[string]int // successful ops by kind
 	paid  map[string]int // bridge/leaf -> successful finalisations
 	avoidKnown bool
+	lastRes *abci.ResponseFinalizeBlock
 }
 
 var simEpoch = time.Date(2026, 1, 1, 0, 0, 0, 0, time.UTC)
@@ -860,16 +861,25 @@ func (w *l1World) runBlock() *core.Violation {
 			so.OnSuccess(&txRes{OK: true})
 		}
 	}
-	raw := make([][]byte, len(txs))
-	for i := range txs {
-		raw[i] = txs[i].Bytes
-	}
 	// crash plan
 	crash := ""
 	if w.p.Crash > 0 && r.Chance(w.p.Crash, 100) {
 		crash = []string{"before-finalize", "after-finalize-before-commit", "after-commit"}[r.Intn(3)]
 	}
-	r.Step("block", "h=%d t=+%s txs=%d stub=%d crash=%q", bc.Height, T.Sub(simEpoch), len(txs), len(stub), crash)
+	return w.execBlock(bc, txs, stub, crash)
+}
+
+// execBlock executes a prepared block, runs the lock-step model over its
+// results and compares the complete state.
+func (w *l1World) execBlock(bc blockCtx, txs []pendingTx, stub []node.StubOp, crash string) *core.Violation {
+	r := w.r
+	T := bc.Time
+	w.lastRes = nil
+	raw := make([][]byte, len(txs))
+	for i := range txs {
+		raw[i] = txs[i].Bytes
+	}
+	r.Step("block", "L1 h=%d t=+%s txs=%d stub=%d crash=%q", bc.Height, T.Sub(simEpoch), len(txs), len(stub), crash)
 	if crash == "before-finalize" {
 		w.restart(crash)
 	}
@@ -901,6 +911,7 @@ func (w *l1World) runBlock() *core.Violation {
 	r.Stat("txs", len(txs))
 
 	// lock-step model
+	w.lastRes = res
 	w.applyStubOps(w.m, stub)
 	anySuccess := false
 	for i, pt := range txs {
